@@ -15,6 +15,8 @@ func checkC19(c *Ctx, r *Report, tier string) {
 	r.Rule("C19.R1", "heap.Interface contract of both queue types: Less is a strict comparison of the priorities of elements i and j whose direction matches the constructor (NewMin… ⇒ <, NewMax… ⇒ >); Swap exchanges exactly i and j; Push appends its argument; Pop returns the last element and shrinks by one; Len is len; the wrapper's Push/Pop go through container/heap on the wrapped queue and Peek reads index 0", 13)
 	r.Rule("C19.R3", "the ordering direction of a queue is fixed by its constructor: the wrapped heap is stored only into freshly allocated queues", 1)
 	queueKindFixedAtConstruction(c, r, "C19.R3")
+	r.Rule("C19.R4", "outside the heap.Interface methods nothing sorts, overwrites or adopts the backing array of a queue", 1)
+	backingArrayOnlyThroughHeap(c, r, "C19.R4")
 	r.Rule("C19.R2", "Reverse hands the new queue a freshly allocated copy of the items, never the source's backing array", 2)
 	sp := c.SSAPkg("utils")
 	if sp == nil {
